@@ -106,12 +106,11 @@ Judge(e) ==
     [] e.event = "Fault" /\ e.depth = CurDepth /\ live /\ ~dead -> JudgeFault(e)
     [] e.event = "Final"  -> JudgeFinal(e)
     [] e.event = "Vector" -> JudgeVector(e)
-    (* the program is still running after far more steps than any generated program takes under the reference *)
-    (* semantics: recording stopped here.  Every step up to this point was judged, so by itself this says the  *)
-    (* generator produced a long program (conformance); a deviation that made the program run on was judged   *)
-    (* at its step.                                                                                            *)
-    [] e.event = "StepBound" -> <<"Ref.step-bound-exceeded">>
-    [] e.event \in {"Begin", "End", "Step", "Fault", "Enter", "Exit"} -> <<>>
+    (* StepBound: the driver stopped recording this run after its step bound (the bound keeps the traces of     *)
+    (* programs that loop - legitimately, or because of a deviation - small).  Every recorded step before it    *)
+    (* was judged, and a deviation that makes a program run on is judged at its step; the rest of the run is    *)
+    (* simply not judged (the drivers count such runs).                                                         *)
+    [] e.event \in {"Begin", "End", "Step", "Fault", "Enter", "Exit", "StepBound"} -> <<>>
     [] OTHER -> <<"Proj.unknown-event">>
 
 TraceInit == /\ code = <<>> /\ data = <<>> /\ st = InitState /\ status = "run" /\ jumped = FALSE /\ ret = <<>>
